@@ -539,10 +539,22 @@ func (e *testEnv) varyDeployment(o *options.Options) {
 	case 2:
 		o.Templates.Banner, o.Templates.Footer = "Sign in <b>here</b> & now", "© \"ops\" <team>"
 	}
+	if o.Cookie.Name == "_oauth2_proxy" { // the suite did not choose a name: cookie-name prefixes browsers give a meaning to
+		// (one choice per suite and seed: suites present one environment's cookies to another that stands for a replica)
+		switch hash64(fmt.Sprintf("cookie-name|%d|%s", e.c.seed, e.c.name)) % 3 {
+		case 1:
+			if len(o.Cookie.Domains) == 0 && (o.Cookie.Path == "/" || o.Cookie.Path == "") {
+				o.Cookie.Name = "__Host-o2p"
+			}
+		case 2:
+			o.Cookie.Name = "__Secure-sess.id"
+		}
+	}
 	o.Logging.RequestEnabled = pick(3) != 1
 	o.Logging.AuthEnabled = pick(3) != 1
 	o.Logging.SilencePing = pick(2) == 1
 	e.c.count("deploy:prefix:" + o.ProxyPrefix)
+	e.c.count("deploy:cookie-name:" + o.Cookie.Name)
 }
 
 func (e *testEnv) buildRequest(rs reqSpec) (*http.Request, error) {
